@@ -51,7 +51,7 @@ RightAssoc(x) == x = "**"
 OpPunct == (BinOps \ {",", "in", "instanceof"}) \cup AssignOps \cup UpdOps \cup {"!", "~", "?", ":", ".", "=>"}
 Brackets == {"(", ")", "[", "]", "{", "}"}
 IsIdent(x) == x \in Idents
-IsNum(x)   == x \in Nums
+IsNumTok(x)   == x \in Nums
 IsWord(x)  == x \in Idents \cup Nums \cup Keywords
 
 \* ---------------------------------------------------------------------------------------
@@ -120,6 +120,35 @@ PrintG(tr) ==
     [] OTHER -> <<"<?>">>
 Unmark(ts) == [ti \in 1..Len(ts) |-> IF ts[ti] = "(:" THEN "(" ELSE IF ts[ti] = ":)" THEN ")" ELSE ts[ti]]
 PrintExpr(tr) == Unmark(PrintG(tr))    \* "Print" of the design (the name Print belongs to module TLC)
+
+\* PrintAll: like PrintG, and additionally every sub-expression that needs no parentheses is wrapped in the
+\* OPTIONAL markers "(?" "?)".  A layout generator may turn any optional pair into real parentheses (redundant
+\* parentheses); dropping them all gives PrintG.
+RECURSIVE PrintAll(_)
+WrapA(tr, minlv) == IF Level(tr) < minlv THEN <<"(:">> \o PrintAll(tr) \o <<":)">> ELSE <<"(?">> \o PrintAll(tr) \o <<"?)">>
+PrintAll(tr) ==
+  CASE tr.t \in LeafTags -> <<tr.op>>
+    [] tr.t = "bin" ->
+         LET lv == BinLevel[tr.op] IN
+         IF tr.op = "**" THEN WrapA(tr.kids[1], LvUpdate) \o <<"**">> \o WrapA(tr.kids[2], LvExp)
+         ELSE WrapA(tr.kids[1], lv) \o <<tr.op>> \o WrapA(tr.kids[2], lv + 1)
+    [] tr.t = "un"   -> <<tr.op>> \o WrapA(tr.kids[1], LvUnary)
+    [] tr.t = "pre"  -> <<tr.op>> \o WrapA(tr.kids[1], LvUnary)
+    [] tr.t = "post" -> WrapA(tr.kids[1], LvCall) \o <<tr.op>>
+    [] tr.t = "cond" -> WrapA(tr.kids[1], LvOr) \o <<"?">> \o WrapA(tr.kids[2], LvAssign) \o <<":">> \o WrapA(tr.kids[3], LvAssign)
+    [] tr.t = "asg"  -> WrapA(tr.kids[1], LvCall) \o <<tr.op>> \o WrapA(tr.kids[2], LvAssign)
+    [] tr.t = "arrow" -> <<tr.op, "=>">> \o WrapA(tr.kids[1], LvAssign)
+    [] tr.t = "mem"  -> WrapA(tr.kids[1], LvCall) \o <<".", tr.op>>
+    [] tr.t = "idx"  -> WrapA(tr.kids[1], LvCall) \o <<"[">> \o WrapA(tr.kids[2], 1) \o <<"]">>
+    [] tr.t = "call" -> WrapA(tr.kids[1], LvCall) \o <<"(">>
+                          \o JoinComma([ai \in 1..(Len(tr.kids) - 1) |-> WrapA(tr.kids[ai + 1], LvAssign)]) \o <<")">>
+    [] tr.t = "new"  -> <<"new">> \o WrapA(tr.kids[1], LvMember) \o <<"(">>
+                          \o JoinComma([ai \in 1..(Len(tr.kids) - 1) |-> WrapA(tr.kids[ai + 1], LvAssign)]) \o <<")">>
+    [] tr.t = "arr"  -> <<"[">> \o JoinComma([ai \in 1..Len(tr.kids) |-> WrapA(tr.kids[ai], LvAssign)]) \o <<"]">>
+    [] OTHER -> <<"<?>">>
+PrintMarked(tr) == <<"(?">> \o PrintAll(tr) \o <<"?)">>
+DropOptional(ts) == SelectSeq(ts, LAMBDA x : x \notin {"(?", "?)"})
+AllParens(ts) == [ti \in 1..Len(ts) |-> IF ts[ti] \in {"(:", "(?"} THEN "(" ELSE IF ts[ti] \in {":)", "?)"} THEN ")" ELSE ts[ti]]
 
 \* the grouping pairs of a marked token sequence, as <<open index, close index>>
 RECURSIVE MatchClose(_, _, _)
@@ -225,7 +254,7 @@ PList(ts, pi, cl, acc, dv) ==
        ELSE IF Tok(ts, it.n) = cl THEN OkArgs(Append(acc, it.t), it.n + 1)
        ELSE FailArgs(it.n)
 
-IsPropName(x) == IsWord(x) /\ ~IsNum(x)
+IsPropName(x) == IsWord(x) /\ ~IsNumTok(x)
 PCallTail(ts, cur, dv) ==
   LET kw == Tok(ts, cur.n) IN
   IF kw = "(" THEN LET ag == PList(ts, cur.n + 1, ")", <<>>, dv) IN
@@ -270,7 +299,7 @@ PMember(ts, pi, dv) ==
 PPrimary(ts, pi, dv) ==
   LET kw == Tok(ts, pi) IN
   IF IsIdent(kw) THEN Ok(Id(kw), pi + 1)
-  ELSE IF IsNum(kw) THEN Ok(Num(kw), pi + 1)
+  ELSE IF IsNumTok(kw) THEN Ok(Num(kw), pi + 1)
   ELSE IF kw = "this" THEN Ok(This, pi + 1)
   ELSE IF kw = "(" THEN LET inr == PExpr(ts, pi + 1, dv) IN
                         IF ~inr.ok THEN inr
@@ -295,6 +324,12 @@ MinimalParens(tr) ==
   LET marked == PrintG(tr) IN
   \A pr \in GroupPairs(marked) :
      LET res == ParseExpr(Unmark(RemovePair(marked, pr))) IN ~res.ok \/ res.t # tr
+\* the optional markers are exactly the redundant positions: dropping them gives the minimal print, turning
+\* all of them into parentheses still denotes the same tree
+OptionalParensLaw(tr) ==
+  LET mk == PrintMarked(tr)  res == ParseExpr(AllParens(mk)) IN
+  /\ Unmark(DropOptional(mk)) = PrintExpr(tr)
+  /\ res.ok /\ res.t = tr
 \* trees the printer is defined on: update / assignment operands are references
 RECURSIVE WellFormed(_)
 WellFormed(tr) ==
@@ -307,7 +342,7 @@ WellFormed(tr) ==
 \* to text).  Restricted productions: no line terminator before postfix ++/--, before =>,
 \* after break / continue / return / throw.
 \* ---------------------------------------------------------------------------------------
-Trivia     == {"<sp>", "<sp2>", "<tab>", "<nl>", "<crlf>", "<bc>", "<bc2>", "<bcnl>", "<lc>", "<lc2>"}
+Trivia     == {"<sp>", "<sp2>", "<tab>", "<nl>", "<crlf>", "<bc>", "<bc2>", "<bcnl>", "<lc>", "<lc2>", "<vt>", "<ff>"}
 TriviaNL   == {"<nl>", "<crlf>", "<bcnl>", "<lc>", "<lc2>"}       \* contain a line terminator
 Significant(ls) == SelectSeq(ls, LAMBDA x : x \notin Trivia)
 \* index of the previous / next significant item, 0 if none
@@ -326,12 +361,15 @@ RestrictedOK(ls) ==
 CanAbut(xt, yt) ==
   /\ ~(IsWord(xt) /\ IsWord(yt))
   /\ ~(xt \in OpPunct /\ yt \in OpPunct)
-  /\ ~(IsNum(xt) /\ yt = ".") /\ ~(xt = "." /\ IsNum(yt))
+  /\ ~(IsNumTok(xt) /\ yt = ".") /\ ~(xt = "." /\ IsNumTok(yt))
   /\ ~(xt = "/" \/ yt = "/")                                       \* never next to anything: comment / regex openers
 AbutOK(ls) == \A li \in 1..(Len(ls) - 1) : (ls[li] \notin Trivia /\ ls[li + 1] \notin Trivia) => CanAbut(ls[li], ls[li + 1])
 \* a line comment must be followed by something that is not swallowed: the names in Trivia
 \* carry their own terminator, so nothing to check here.
-LayoutSupported(ls) == RestrictedOK(ls) /\ AbutOK(ls)
+\* a "/" token directly followed by a comment would itself start a comment
+SpaceLike == {"<sp>", "<sp2>", "<tab>", "<nl>", "<crlf>", "<vt>", "<ff>"}
+SlashOK(ls) == \A li \in 1..(Len(ls) - 1) : ls[li] = "/" => ls[li + 1] \in SpaceLike
+LayoutSupported(ls) == RestrictedOK(ls) /\ AbutOK(ls) /\ SlashOK(ls)
 
 \* ---------------------------------------------------------------------------------------
 \* Bracket balance of a token sequence (a necessary condition of every Script)
@@ -394,7 +432,7 @@ Pow2s(k)  == 2 ^ k
 \* does the literal denote the dyadic rational  kk / 2^jj  (kk < 2^20, jj <= 6) ?
 Denotes(lit, kk, jj) ==
   /\ lit.ok
-  /\ IF lit.e10 >= 0 THEN lit.e10 <= 8 /\ lit.m <= 100000 /\ lit.m * Pow10s(lit.e10) * Pow2s(jj) = kk
+  /\ IF lit.e10 >= 0 THEN lit.e10 <= 4 /\ lit.m <= 100000 /\ lit.m * Pow10s(lit.e10) * Pow2s(jj) = kk
      ELSE (0 - lit.e10) <= 8 /\ lit.m < 100000000 \div Pow2s(jj) /\ kk < 100000000 \div Pow10s(0 - lit.e10)
           /\ lit.m * Pow2s(jj) = kk * Pow10s(0 - lit.e10)
 
